@@ -277,15 +277,34 @@ Theorem request_enabled : forall s p c i o l,
   (memN i (s_active s) = true \/ getb (s_wanted s) i = true) ->
   mem_blk i o (s_fin s) = false ->
   holds c i o = false ->
+  listed_any c i o = false ->
   not_stalled s i o = 0 ->
   0 < overlapped ->
   exists s', accept s (SRequest p i o l) = Some s'.
 Proof.
-  intros s p c i o l G Hi Hu V Hh Hc Hw Hf Ho Hn Hov. cbn [accept]. rewrite G, Hi, Hu, V, Hh, Hc, Hf, Ho, Hn.
+  intros s p c i o l G Hi Hu V Hh Hc Hw Hf Ho Hla Hn Hov. cbn [accept]. rewrite G, Hi, Hu, V, Hh, Hc, Hf, Ho, Hla, Hn.
   assert (W : (memN i (s_active s) || getb (s_wanted s) i && true) = true).
   { destruct Hw as [Hw|Hw]; rewrite Hw; [reflexivity|]. rewrite orb_true_r. reflexivity. }
   rewrite W.
   assert (X : (if s_aggr s then 0 <? overlapped else 0 =? 0) = true).
   { destruct (s_aggr s); [apply N.ltb_lt; assumption|reflexivity]. }
   rewrite X. cbn. eexists. reflexivity.
+Qed.
+
+(* The lesson of the reverted repair (E): a REQUEST is only admitted for a block for which this connection has NO entry
+   at all -- valid or cancelled -- in its queued / unordered / stalled / choked buckets; so RequestList::downloading
+   (first entry for the same piece and offset wins) can never match a stale entry in front of a live one. *)
+Theorem never_queued_behind_stale : forall s p i o l s',
+  accept s (SRequest p i o l) = Some s' ->
+  exists c, get_conn s p = Some c /\
+    forall e, In e (c_q c ++ c_u c ++ c_s c ++ c_c c) -> ~ (e_i e = i /\ e_o e = o).
+Proof.
+  intros s p i o l s' A. cbn [accept] in A. destruct (get_conn s p) as [c|] eqn:G; [|discriminate].
+  match type of A with (if ?b then _ else _) = _ => destruct b eqn:Cond end; [|discriminate].
+  repeat (apply andb_prop in Cond; destruct Cond as [Cond ?]).
+  exists c. split; [reflexivity|]. intros e In1 [Ei Eo].
+  match goal with K : negb (listed_any c i o) = true |- _ => apply negb_true_iff in K; rename K into K1 end.
+  assert (X : listed_any c i o = true).
+  { unfold listed_any. apply existsb_exists. exists e. split; [assumption|]. unfold same_blk. rewrite Ei, Eo, !N.eqb_refl. reflexivity. }
+  congruence.
 Qed.
